@@ -1,0 +1,63 @@
+//go:build verif
+
+package rest
+
+import (
+	"github.com/inbucket/inbucket/v3/pkg/msghub"
+)
+
+// VerifEvent is what a verification harness sees on a socket listener's queue.
+type VerifEvent struct {
+	Kind    string // "stored" or "deleted"
+	Mailbox string
+	ID      string
+}
+
+// VerifListener exposes the real WebSocket message listeners (v1, v2) without a network
+// peer: the msghub-facing methods, Close, and the consumer side of the queue that
+// WSWriter would drain (only compiled with the verif build tag).
+type VerifListener interface {
+	msghub.Listener
+	Close()
+	// Recv blocks for the next queued event; ok is false once the queue is closed.
+	Recv() (ev VerifEvent, ok bool)
+	// Pending is the number of events currently queued.
+	Pending() int
+}
+
+type verifV1 struct{ *msgListenerV1 }
+
+func (l verifV1) Recv() (VerifEvent, bool) {
+	msg, ok := <-l.c
+	if !ok {
+		return VerifEvent{}, false
+	}
+	return VerifEvent{Kind: "stored", Mailbox: msg.Mailbox, ID: msg.ID}, true
+}
+
+func (l verifV1) Pending() int { return len(l.c) }
+
+type verifV2 struct{ *msgListenerV2 }
+
+func (l verifV2) Recv() (VerifEvent, bool) {
+	ev, ok := <-l.c
+	if !ok {
+		return VerifEvent{}, false
+	}
+	if ev.Variant == "message-deleted" {
+		return VerifEvent{Kind: "deleted", Mailbox: ev.Identifier.Mailbox, ID: ev.Identifier.ID}, true
+	}
+	return VerifEvent{Kind: "stored", Mailbox: ev.Header.Mailbox, ID: ev.Header.ID}, true
+}
+
+func (l verifV2) Pending() int { return len(l.c) }
+
+// VerifNewListenerV1 creates and registers a real v1 socket listener.
+func VerifNewListenerV1(hub *msghub.Hub, mailbox string) VerifListener {
+	return verifV1{newMsgListenerV1(hub, mailbox)}
+}
+
+// VerifNewListenerV2 creates and registers a real v2 socket listener.
+func VerifNewListenerV2(hub *msghub.Hub, mailbox string) VerifListener {
+	return verifV2{newMsgListenerV2(hub, mailbox)}
+}
